@@ -235,6 +235,18 @@ pub fn oracle(c: &DispCase, obs: &mut Obs) -> Vec<Violation> {
                     ),
                 ));
             }
+            // the typed wrapper reports every violated rule, like the rule list itself
+            if t.validate_errors.len() != t.body.errs_all.len() {
+                out.push(viol(
+                    format!("C12|typed|MT{}|validate-count", c.announced),
+                    format!(
+                        "SwiftMessage::validate reports {} errors, validate_network_rules(false) {}: {:?}",
+                        t.validate_errors.len(),
+                        t.body.errs_all.len(),
+                        t.body.errs_all.iter().map(|e| &e.code).collect::<Vec<_>>()
+                    ),
+                ));
+            }
             // plugins
             match plugin_parse(&x) {
                 Ok((data, meta)) => {
